@@ -7,7 +7,9 @@
 \*     observations = scheduler choices the property leaves open;
 \*   * the label carries the *requested* methods `req` and the granted subset `calls`: a grant is
 \*     valid iff every granted method is callable, and every requested-but-not-granted method
-\*     is not callable or conflicts with a granted one (no wasted cycle);
+\*     is not callable or conflicts with a granted one (no wasted cycle); per admissible call
+\*     set the model enumerates req = calls and req = calls + every blocked method (the
+\*     history pass only req = calls);
 \*   * `Unspec(cfg, st, m)`: the property does not define the readiness of m in this state
 \*     (either outcome is a model step);
 \*   * ghost history g (GInit/GNext/GInv), hidden by VIEW in the edge pass, part of the
@@ -16,34 +18,50 @@ EXTENDS Naturals, Integers, Sequences, FiniteSets, TLC, Json
 VARIABLES cfg, st, g, last
 C == INSTANCE @NAME@
 vars == <<cfg, st, g, last>>
-ArgsFor(S) == {f \in [S -> UNION {C!ArgDom(cfg, m) : m \in S}] : \A m \in S : f[m] \in C!ArgDom(cfg, m)}
-ReqSets == UNION {ArgsFor(S) : S \in SUBSET C!Methods(cfg)}
-Restrict(f, S) == [m \in S |-> f[m]]
-Grant(req, calls, inp) ==
+\* Partial choice functions: for a set Ms of methods and argument sets D[m] (integers), all
+\* functions from a subset of Ms (lo = 0) / from all of Ms (lo = 1) to an argument of D[m].
+\* Enumerated through index functions instead of filtering a product of values.
+MaxArgs == 3
+Nth(S, k) == CHOOSE x \in S : Cardinality({y \in S : y < x}) = k - 1
+Choices(Ms, D, lo) ==
+  {[m \in {x \in Ms : p[x] > 0} |-> Nth(D[m], p[m])] :
+      p \in {p \in [Ms -> lo..MaxArgs] : \A m \in Ms : p[m] <= Cardinality(D[m])}}
+CallSets == Choices(C!Methods(cfg), [m \in C!Methods(cfg) |-> C!ArgDom(cfg, m)], 0)
+\* a set of simultaneous calls the component can execute
+Admissible(calls, inp) ==
   /\ \A m \in DOMAIN calls : C!Unspec(cfg, st, m) \/ C!Callable(cfg, st, m, calls[m], calls, inp)
-  /\ \A m \in DOMAIN req \ DOMAIN calls :
-        \/ C!Unspec(cfg, st, m)
-        \/ ~C!Callable(cfg, st, m, req[m], calls, inp)
-        \/ \E n \in DOMAIN calls : C!Conflict(cfg, m, n)
   /\ \A m1, m2 \in DOMAIN calls : m1 # m2 => ~C!Conflict(cfg, m1, m2)
   /\ C!Assume(cfg, st, calls, inp)
+\* arguments with which a method outside `calls` may be requested without being granted:
+\* not callable next to `calls`, or conflicting with a granted method (no wasted cycle otherwise)
+Blocked(m, calls, inp) ==
+  {a \in C!ArgDom(cfg, m) : \/ C!Unspec(cfg, st, m)
+                            \/ ~C!Callable(cfg, st, m, a, calls, inp)
+                            \/ \E n \in DOMAIN calls : C!Conflict(cfg, m, n)}
+\* requested-but-not-granted methods enumerated by the model: none, or every method that has
+\* a blocked argument (all combinations of their blocked arguments)
+Extras(calls, inp) ==
+  LET Rest == C!Methods(cfg) \ DOMAIN calls
+      BA == [m \in Rest |-> Blocked(m, calls, inp)]
+      Mb == {m \in Rest : BA[m] # {}}
+  IN {<<>>} \cup Choices(Mb, BA, 1)
 CalBits(req, calls, inp) ==
   [m \in DOMAIN req |-> IF C!Unspec(cfg, st, m) THEN -1
                         ELSE IF C!Callable(cfg, st, m, req[m], calls, inp) THEN 1 ELSE 0]
 Init == /\ cfg \in C!Configs /\ st = C!CInit(cfg) /\ g = C!GInit(cfg)
         /\ last = [req |-> <<>>, calls |-> <<>>, inp |-> <<>>, res |-> <<>>, cal |-> <<>>, obs |-> <<>>]
         /\ PrintT("INIT " \o ToJson([cfg |-> cfg, st |-> st]))
-Cycle(req, S, inp) ==
-  LET calls == Restrict(req, S) IN
-  /\ Grant(req, calls, inp)
-  /\ \E obs \in C!ObsSet(cfg, st, calls, inp) :
-       LET res == [m \in S |-> C!Result(cfg, st, m, calls, inp)] IN
+Cycle(calls, inp) ==
+  /\ Admissible(calls, inp)
+  /\ \E extra \in @EXTRAS@ : \E obs \in C!ObsSet(cfg, st, calls, inp) :
+       LET req == calls @@ extra
+           res == [m \in DOMAIN calls |-> IF C!ResAny(cfg, st, m) THEN -1 ELSE C!Result(cfg, st, m, calls, inp, obs)] IN
        /\ st' = C!CNext(cfg, st, calls, inp, obs)
        /\ g' = C!GNext(cfg, g, st, calls, inp, res, obs)
        /\ last' = [req |-> req, calls |-> calls, inp |-> inp, res |-> res,
                    cal |-> CalBits(req, calls, inp), obs |-> obs]
   /\ UNCHANGED cfg
-Next == \E inp \in C!InDom(cfg, st) : \E req \in ReqSets : \E S \in SUBSET DOMAIN req : Cycle(req, S, inp)
+Next == \E calls \in CallSets : \E inp \in C!InDom(cfg, st) : Cycle(calls, inp)
 Spec == Init /\ [][Next]_vars
 View == <<cfg, st>>
 ViewG == <<cfg, st, g>>
